@@ -51,7 +51,7 @@ CHECKS = {
  "C18": E("E1", "exhaustive configuration product: every zone through {raw bytes, zoneinfo dir, concatenated file in a plain and an adversarial layout, bundled db, global db, static include!/get! macros} x {tz-fat on, off} (two builds of the same dumper) x {slim, fat zic output}; canonical answer streams compared line by line and by digest across builds; all case variants of names; POSIX print->parse",
          "The same data must give identical answer streams (offset info, civil classification, transitions, printed forms) through every back-end and feature configuration; slim and fat compilations of the same rules must agree wherever zic's own outputs describe the same zone; name lookup is checked warm and cold for every name in 4-4096 case variants and for all 9,120 short queries against a 154-name neighbour database; TimeZone == between runtime routes; POSIX printed forms are re-read by an independent reader."),
  "C19": E("E2+E3", "sequential: every event history up to depth 4/5 over a 22-event alphabet (incl. replacement by a file with an OLDER modification time) executed from scratch on the real public API with a harness-owned clock (no state merging), property-level admissibility monitor; concurrent: loom exhaustive exploration (preemption-bounded DPOR) of the real, unmodified zoneinfo and concatenated database sources compiled against loom via a std shim",
-         "All 22^4 = 234,256 (quick) / 22^5 = 5,153,632 (thorough) histories of get/reset/write/touch/remove/advance are executed and every answer must be a state the name's data had on disk within the last TTL or since the last reset; all interleavings of 2-3 threads up to the preemption bound over 10 bodies x 2 back-ends are explored by loom, which also detects deadlocks.",
+         "All 22^4 = 234,256 (quick) / 22^5 = 5,153,632 (thorough) histories of get/reset/write/touch/remove/advance per back-end, plus deep / revalidated / single-zone / bundled sections with invalid, directory, truncated, same-mtime and older-mtime replacements (1.14 M quick / 24.4 M thorough histories in all), are executed; every answer must be a state the name's data had on disk within the last TTL or since the last reset, and an entry whose mtime is unchanged must be reused until reset; all interleavings of 2-3 threads up to the preemption bound over 19 bodies x 2 back-ends are explored by loom, which also detects deadlocks.",
          "The std shim replaces std::sync::{Arc,RwLock} by loom's in the unmodified sources; file-system and clock effects are driven deterministically by the harness; the global tz::db() singleton and TZDIR discovery are not explored. " + TRUST),
  "C20": E("E2+E3", "all programs over {new, clone, move, drop, eq, query, wrap} on a pool of 3 handle slots up to depth 6/8 executed from scratch on real handles with a counting allocator (no state merging); all 187,199 fixed offsets; baton-scheduled enumeration of all orders of handle operations of 2-3 threads (95,000 / 1.36 M schedules); database-cache handles, 43 constructor paths, equality matrix over 36 handles, unwinding with live handles; replay under ASan+LSan; Miri on free-running (unserialised) threads in both tiers and on depth-3 programs in thorough; ThreadSanitizer on the free-running section in thorough",
          "Every bounded program is run on real TimeZone values; after every step the set of live heap groups must equal the reference model's, queries must answer correctly, equality must be reflexive/symmetric/clone-stable; memory safety is decided by the counting allocator (consulted before every read) and by replaying the program set under AddressSanitizer/LeakSanitizer and Miri; data races in reference counts by Miri/TSan on free-running threads.",
